@@ -747,6 +747,14 @@ class C07(PropBase):
             if got.get(n) != v:
                 return "STACK WIN register %s differs: got %s, documented %d (%s)" % (n, got.get(n), v, ans[:300])
         extra = sorted(set(got) - set(want))
+        # the exact extent of the known finding (c07_forwarded_set_exact / _fpo): W = ([ebp, ebx, edi, esi] ∩ valid in the callee)
+        # minus what the record sets.  A register valid in the caller that is neither set by the record nor in W is a
+        # different defect (its message does not match F-C07a's what_regex, so it is reported as a fresh violation).
+        w_set = set(n for n in ("ebp", "ebx", "edi", "esi") if (validset is None or n in validset) and n not in want)
+        if extra and not set(extra) <= w_set:
+            return ("STACK WIN through CfiStackWalker: valid in the caller although neither set by the record nor a callee-saved "
+                    "register that was valid in the callee (beyond the known forwarding, whose extent here is {%s}): %s"
+                    % (",".join(sorted(w_set)), ",".join(sorted(set(extra) - w_set))))
         if extra:
             return ("STACK WIN through CfiStackWalker: registers implicitly forwarded (valid in the caller, not set by the record): "
                     + ",".join(extra))
